@@ -29,7 +29,7 @@ macro "ev_simp" "[" ts:Lean.Parser.Tactic.simpLemma,* "]" : tactic =>
       st_RECV_SEQNUM_TOO_HIGH, st_RESENDREQ_HANDLING, writesOf, deliveriesOf,
       absConn, absSt, restState, absDelivered, AConn.advance, AConn.askResend, AConn.push, AConn.drop, AConn.dropLogout,
       AKind.entry, sentFresh, sendMsg_resendReq', sendMsg_logonReply', sendMsg_logout', sendMsg_logout_conn',
-      absFrame_build_resend, absFrame_build_logon, absFrame_build_logout, absRow_build_resend, absRow_build_logon,
+      absFrame_build_resend, absFrame_build_logonReply, absFrame_build_logout, absRow_build_resend, absRow_build_logon,
       absRow_build_logout, frameGood_build_resend, frameGood_build_logon, frameGood_build_logout, rowsGood_append,
       get?_build_34, $ts,*])
 
